@@ -13,12 +13,18 @@ claimed = {
  "C09": ("kspk", "at every quiescence: what each speaker announces (L2 decisions, announcer content, BGP routes) equals a fresh speaker booted in-simulation on the final state, and the specification"),
  "C10": ("kspk", "at every quiescence: node announces a service over BGP iff eligible per raw API objects (advertisement selection, node condition/label, endpoint readiness conjunction, traffic policy)"),
  "C12": ("kspk", "between consecutive quiescences: an address never moves between two nodes eligible before and after the perturbation (real eligibility-changing mechanisms: crashes, node flags, selectors, endpoints)"),
+ "C13": ("gl2", "real goroutines of the layer-2 announcer, ARP responders and gratuitous loop under the seeded scheduler; the recorded history of announce/withdraw/request operations is checked for linearizability (porcupine) against 'answers iff some announced service holds the address with an advertisement covering the interface'; reference counts; no gratuitous frame after the last withdrawal; frames that must be ignored"),
+ "C14": ("gfrr", "every configuration text the simulated FRR actually receives (after debouncing, failed reloads, torn writes) is interpreted with FRR semantics (frrinterp) and compared with the requested state; one text per requested state across creation and map orders"),
+ "C15": ("gfrrk8s", "every FRRConfiguration the session manager computes is interpreted (frrk8sinterp) and compared with the requested state (the same reference denotation as C14); structural clauses; every resource written to the simulated API server is one of the computed ones"),
+ "C16": ("gnative", "every byte the native session writes is decoded by an independent RFC 4271 decoder and compared with the requested advertisement; the OPEN reader is driven as a stream consumer with generated/mutated OPENs under fragmentation"),
+ "C17": ("gnative", "real session goroutines against a scripted peer over simulated TCP with connection faults; peer table of the current connection equals the last requested set within 5 simulated minutes after faults stop; refused ASN; silence after Close"),
+ "C19": ("gfrr", "history of submissions / reload attempts / reloader results under seeded schedules and failure patterns: latest-wins, no stale apply, retry, coalescing, no reload for identical resubmission, bounded convergence after faults stop; plus the frr-k8s debouncer/reconciler delivery"),
  "C18": ("kspk", "fork check at every quiescence: fresh ConfigReconcilers over the same snapshot under drawn List permutations and map orders agree (DeepEqual) or all reject, recomputation looks unchanged; unrelated events never reach the handler"),
 }
 na = {
  "C08": "pure function of its input (config.For/toConfig): no schedule, clock, fault or interleaving for a simulator to vary; belongs to property-based testing/SMT (DESIGN.md §5)",
 }
-pending = ["C13","C14","C15","C16","C17","C19","C20"]
+pending = ["C20"]
 checks=[]
 for pid,(eng,txt) in sorted(claimed.items()):
     checks.append({
@@ -36,7 +42,11 @@ m={
  "version":1,
  "setup_cmd":"./setup.sh",
  "hooks":{"guard":"verif","enable":"go test -tags verif -overlay <generated> -modfile <scratch go.mod>: harness files, export shims and the simulation library are added by overlay; sources are rewritten at check time by bin/simbuild (map-range order, sync, go statements, call substitutions); nothing is committed to /repo","baseline_off_cmd":"for m in $(cat /w/out/gomods.txt); do MF=$(cd /repo/$m && . /w/out/goenv.sh && gomodflag); (cd /repo/$m && go test $MF -json -vet=off -count=1 -timeout 25m ./...); done","source_commits":[],"add_only":True},
- "engines":[{"name":"kspk","path":"harness/speaker","serves_properties":["C04","C05","C09","C10","C12","C18"],"kind_free_text":"single-goroutine discrete-event simulation of N speaker processes (real speaker controller, layer2/bgp controllers, reconcilers) over one simulated API server with per-speaker informer caches and queues, simulated memberlist, recording BGP session manager; speaker crash/restart, false suspicion, lag, reordering"},{"name":"kctl","path":"harness/controller","serves_properties":["C01","C02","C03","C06","C07","C11"],"kind_free_text":"single-goroutine discrete-event simulation of the controller process: real controller/allocator/reconcilers over a simulated API server, informer cache and work queues; nested scheduling at handler granularity; crash/restart and API write faults"}],
+ "engines":[{"name":"gnative","path":"harness/internal/bgp/native","serves_properties":["C16","C17"],"kind_free_text":"goroutine engine: real native BGP session goroutines inside a testing/synctest bubble, exactly one released at a time by a seeded scheduler at park points (scheduler-owned locks/conds, simulated TCP, rewritten selects/sends/sleeps); scripted peer with independent decoder"},
+  {"name":"gfrr","path":"harness/internal/bgp/frr","serves_properties":["C14","C19"],"kind_free_text":"goroutine engine over the FRR session manager, debouncer and reload validator; simulated files, reloader and FRR (interpreter)"},
+  {"name":"gfrrk8s","path":"harness/internal/k8s/controllers","serves_properties":["C15","C19"],"kind_free_text":"goroutine engine over the frr-k8s session manager and FRRK8sReconciler (debouncer + Reconcile) with a simulated API server"},
+  {"name":"gl2","path":"harness/internal/layer2","serves_properties":["C13"],"kind_free_text":"goroutine engine over layer2.Announce, arpResponder goroutines and the gratuitous loop with simulated raw sockets; porcupine"},
+  {"name":"kspk","path":"harness/speaker","serves_properties":["C04","C05","C09","C10","C12","C18"],"kind_free_text":"single-goroutine discrete-event simulation of N speaker processes (real speaker controller, layer2/bgp controllers, reconcilers) over one simulated API server with per-speaker informer caches and queues, simulated memberlist, recording BGP session manager; speaker crash/restart, false suspicion, lag, reordering"},{"name":"kctl","path":"harness/controller","serves_properties":["C01","C02","C03","C06","C07","C11"],"kind_free_text":"single-goroutine discrete-event simulation of the controller process: real controller/allocator/reconcilers over a simulated API server, informer cache and work queues; nested scheduling at handler granularity; crash/restart and API write faults"}],
  "checks":checks,
  "not_applicable":[{"property_id":k,"reason":v} for k,v in na.items()]+[{"property_id":p,"reason":"check not built yet in this session (engine under construction, see DESIGN.md §8); not claimed"} for p in pending],
  "notes":"Genuine defects repaired in /repo are 'fix:' commits listed in known_findings.json under fixed; recorded ones under findings."
